@@ -82,6 +82,11 @@ func (c *CosignValidator) Validate(ctx context.Context, ref name.Reference, conf
 	if config.Provider != v1beta1.ImageVerificationProviderCosign {
 		return errors.New("unsupported image verification provider")
 	}
+	// Without at least one authority nothing would be verified below, and
+	// we'd report that as success.
+	if config.Cosign == nil || len(config.Cosign.Authorities) == 0 {
+		return errors.New("no cosign authorities configured to verify the image signature")
+	}
 
 	auth, err := k8schain.New(ctx, c.clientset, k8schain.Options{
 		Namespace:          c.namespace,
